@@ -1,60 +1,22 @@
 ------------------------------ MODULE Chunking ------------------------------
 (***************************************************************************)
-(* The sequential meaning of wencry's chunked data path: how an input of   *)
-(* n bytes is cut into chunk loads (fread / EOF semantics, PKCS#7 padding  *)
-(* as "always 1..16 bytes, in a chunk of its own if the data ends on a     *)
-(* chunk boundary"), which cipher stream owns which chunk, how the last    *)
-(* chunk is recognised when decrypting, and how many bytes each export     *)
-(* writes.  S = chunk size in bytes (a multiple of 16), T = streams.       *)
-(*                                                                         *)
-(* EofPeek = TRUE is the repaired tree (a full read looks one byte ahead); *)
-(* FALSE is the pinned behaviour (D1), used by negative controls only.     *)
+(* Chunking = ChunkingBase (the per-load definitions, about which          *)
+(* ChunkingProofs.tla proves theorems for every length and chunk size)     *)
+(* plus the whole load sequences of an input, defined recursively.         *)
 (***************************************************************************)
-EXTENDS Naturals, Sequences
+EXTENDS ChunkingBase
 
-Min2(a, b) == IF a < b THEN a ELSE b
-FULL == "FULL"  FINAL == "FINAL"  NODATA == "NODATA"
-
-\* ---- encrypting: input of n bytes --------------------------------------
-\* the load at input position pos: <<kind, data bytes read, blocks in the buffer>>
-EncLoad(n, pos, S) ==
-  LET got == Min2(S, n - pos)
-  IN IF got # S THEN << FINAL, got, (got \div 16) + 1 >>      \* 1..16 pad bytes, maybe a pad-only chunk
-     ELSE << FULL, S, S \div 16 >>
 \* sequence of loads up to and including the FINAL one
 RECURSIVE EncLoadsFrom(_, _, _)
 EncLoadsFrom(n, pos, S) ==
   LET l == EncLoad(n, pos, S)
   IN IF l[1] = FINAL THEN << l >> ELSE << l >> \o EncLoadsFrom(n, pos + S, S)
 EncLoads(n, S) == EncLoadsFrom(n, 0, S)
-PadLen(n) == 16 - (n % 16)
-PaddedLen(n) == n + PadLen(n)
-EncChunks(n, S) == (PaddedLen(n) + S - 1) \div S       \* number of chunks written
 
-\* ---- decrypting: body of m bytes ---------------------------------------
-DecLoad(m, pos, S, EofPeek) ==
-  LET got == Min2(S, m - pos)
-      readover == (m - pos < S) \/ (EofPeek /\ m - pos = S)
-  IN IF readover THEN << FINAL, got, got \div 16 >>
-     ELSE IF got = 0 THEN << NODATA, 0, 0 >> ELSE << FULL, S, S \div 16 >>
 RECURSIVE DecLoadsFrom(_, _, _, _)
 DecLoadsFrom(m, pos, S, EofPeek) ==
   LET l == DecLoad(m, pos, S, EofPeek)
   IN IF l[1] # FULL THEN << l >> ELSE << l >> \o DecLoadsFrom(m, pos + S, S, EofPeek)
 DecLoads(m, S, EofPeek) == DecLoadsFrom(m, 0, S, EofPeek)
 
-\* ---- ownership ----------------------------------------------------------
-Owner(chunk0, T) == chunk0 % T                   \* chunk j (0-based) belongs to stream j mod T
-ChunkOfBlock(b0, S) == b0 \div (S \div 16)       \* block b (0-based) lies in chunk b div (S/16)
-
-\* ---- export -------------------------------------------------------------
-\* bytes written for a buffer: whole chunk, or for the final one 16*blocks minus the pad
-\* (pad = 0 when encrypting, the last plaintext byte when decrypting)
-ExportLen(load, S, pad) == IF load[1] = FINAL THEN 16 * load[3] - pad ELSE S
-
-\* ---- the relations the rest of the specification relies on --------------
-\* (checked against the production constants reported by the code, see ConstTrace)
-ConstsOK(c) == /\ c.sum = 16 * c.buf_sz /\ c.sizeof_b = c.sum /\ c.sum % 16 = 0 /\ c.buf_sz >= 1
-               /\ c.mn = 0 /\ c.mode = 8 /\ c.hmac = 10 /\ c.iv = 48 /\ c.text1 = 68 /\ c.text16 = 368
-               /\ c.thread_max = 16 /\ c.padding = 38
 =============================================================================
